@@ -9,7 +9,8 @@
 //	padStdout/padStderr   when > 0 and the text ends in '}', `,"<key>":"aaa…"` with that many
 //	              'a's is inserted before the closing brace (streamed, never held in memory)
 //	padStdoutKey/padStderrKey   the key used for the padding (default "pad")
-//	sleepMs       sleep before writing the output
+//	sleepMs       sleep before writing the output (cut short when a file `stop` appears next to
+//	              the executable)
 //	childSleepMs  spawn a descendant that inherits stdout/stderr and sleeps that long; the
 //	              descendant ends early when a file `stop` appears next to the executable or
 //	              when the executable itself disappears (sandbox removed)
@@ -135,7 +136,22 @@ func main() {
 		}
 	}
 	if b.SleepMs > 0 {
-		time.Sleep(time.Duration(b.SleepMs) * time.Millisecond)
+		// ends early when a file `stop` appears next to the executable (long sleeps of timing cases)
+		stop := filepath.Join(filepath.Dir(exe), "stop")
+		end := time.Now().Add(time.Duration(b.SleepMs) * time.Millisecond)
+		for {
+			left := time.Until(end)
+			if left <= 0 {
+				break
+			}
+			if left > 25*time.Millisecond {
+				left = 25 * time.Millisecond
+			}
+			time.Sleep(left)
+			if _, err := os.Stat(stop); err == nil {
+				break
+			}
+		}
 	}
 	pad(os.Stdout, b.Stdout, b.PadStdout, b.PadStdoutKey)
 	pad(os.Stderr, b.Stderr, b.PadStderr, b.PadStderrKey)
